@@ -169,11 +169,15 @@ def check(ctx):
                                     return True
                         return False
                     snode = next((n for n in cfg.nodes.values() if n.ast is stmt), None)
-                    ok = snode is not None and (must_pass(cfg, sets, start=snode.id) or must_pass(cfg, sets, targets={snode.id}))
-                    ctx.decide(ok, "R-WAKE", wq, wfi.where(stmt), f"stop flag write is paired with {what}.set() on every path",
-                               f"`{ast.unparse(stmt)}` stops the loop in {q.rsplit('.', 1)[-1]} that blocks in an untimed {what}.wait(), "
-                               f"but {wq.rsplit('.', 2)[-2]}.{wq.rsplit('.', 1)[-1]} does not set the event on every path: a caller "
-                               f"blocked there is never woken when the connection ends this way", key=f"wake:{what}")
+                    after = snode is not None and all(must_pass(cfg, sets, start=t) for t, l in cfg.succ[snode.id] if l not in ("exc",))
+                    before_only = snode is not None and not after and must_pass(cfg, sets, targets={snode.id})
+                    ctx.decide(after, "R-WAKE", wq, wfi.where(stmt), f"stop flag write is followed by {what}.set() on every path",
+                               (f"`{ast.unparse(stmt)}` is written only AFTER {what}.set(): a waiter woken by the set() re-checks the flag, "
+                                f"still sees it clear and blocks again in the untimed wait - nobody will set the event a second time"
+                                if before_only else
+                                f"`{ast.unparse(stmt)}` stops the loop in {q.rsplit('.', 1)[-1]} that blocks in an untimed {what}.wait(), "
+                                f"but {wq.rsplit('.', 2)[-2]}.{wq.rsplit('.', 1)[-1]} does not set the event on every path: a caller "
+                                f"blocked there is never woken when the connection ends this way"), key=f"wake:{what}")
     ctx.floor("untimed_event_waits", n_wait, 1)
 
     # ---- 3 loop exits ------------------------------------------------------------------------------------
@@ -232,6 +236,38 @@ def check(ctx):
     ok = must_pass(cfg, lambda n: any(call_name(c) == "self.transport.close" for c in node_calls(n)))
     ctx.decide(ok, "R-MUSTPASS/release", da.qual, da.where(), "association.close() closes the transport",
                "DiameterAssociation.close can return without closing the transport", key="transport.close")
+
+    # ---- 5b socket errors end the connection instead of killing the transport thread silently -------------------------------
+    ctx.clause = "5b-socket-errors-signal-release"
+    run = ctx.need(funcs.get("bromelia.transport.TcpConnection._run"), "TcpConnection._run")
+    esc = R.escapes(run)
+    from .c03 import _trace
+    for tag, what in (("OSError#recv", "recv()"), ("OSError#send", "send()")):
+        ctx.decide(tag not in esc, "R-THREAD/socket-errors", run.qual, run.where(),
+                   f"an OSError from {what} is handled inside the transport loop",
+                   f"an OSError raised by {what} (ECONNRESET, EPIPE, ETIMEDOUT, EHOSTUNREACH ...) is not caught on the way up to the "
+                   f"transport thread's top ({_trace(R, run.qual, tag)}): the thread dies without raising the release signal, so "
+                   f"after an abrupt peer disconnect the node never reaches Closed and its sockets stay open", key=f"esc:{tag}")
+    # the handlers that do catch them raise the release signal
+    for ci in [c for c in repo.classes if c.mod.name == "bromelia.transport"]:
+        for mname in ("_read", "_write"):
+            fn = ci.methods.get(mname)
+            if fn is None:
+                continue
+            for t in [x for x in walk_no_nested(fn) if isinstance(x, ast.Try)]:
+                if not any(call_name(c).endswith(("sock.recv", "sock.send", "sock.sctp_recv", "sock.sctp_send")) for s2 in t.body for c in ast.walk(s2) if isinstance(c, ast.Call)):
+                    continue
+                for h in t.handlers:
+                    names = [None] if h.type is None else [ast.unparse(e) for e in (h.type.elts if isinstance(h.type, ast.Tuple) else [h.type])]
+                    broad = any(n is None or n.split(".")[-1] in ("OSError", "Exception", "BaseException", "ConnectionError", "socket.error", "error") for n in names)
+                    if not broad:
+                        continue
+                    sets = any(isinstance(s2, ast.Assign) and ast.unparse(s2) == "self._stop_threads = True" for s2 in ast.walk(h)) or \
+                        any(isinstance(c, ast.Call) and call_name(c) == "self.close" for c in ast.walk(h))
+                    ctx.decide(sets, "R-DOM/socket-errors", f"{ci.qual}.{mname}", ci.where(h),
+                               "the handler of a socket error raises the release signal (_stop_threads = True)",
+                               f"{ci.name}.{mname} swallows a socket error without setting _stop_threads: the state machine never "
+                               f"learns that the peer is gone", key=f"signal:{mname}")
 
     # ---- 6 restart guard ------------------------------------------------------------------------------------------
     ctx.clause = "6-restart"
